@@ -253,3 +253,35 @@ func regionHas(start, until *ssa.BasicBlock, group []*ssa.Function, ok func(ssa.
 	}
 	return false
 }
+
+// loadedField returns the name of the struct field v is a load (or value
+// projection) of, whatever the struct value is rooted at; "" otherwise.
+func loadedField(v ssa.Value) string {
+	switch x := v.(type) {
+	case *ssa.UnOp:
+		if fa, ok := x.X.(*ssa.FieldAddr); ok && x.Op == token.MUL {
+			return fieldNameOf(fa)
+		}
+	case *ssa.Field:
+		return fieldNameOfStruct(x.X.Type(), x.Field)
+	}
+	return ""
+}
+
+// rootedAtFreshAlloc reports whether the address/value path of v starts at an
+// allocation made in the same function (a value nobody else holds yet).
+func rootedAtFreshAlloc(v ssa.Value) bool {
+	root := an.Root(v)
+	for {
+		if u, ok := root.(*ssa.UnOp); ok {
+			root = an.Root(u.X)
+			continue
+		}
+		break
+	}
+	switch root.(type) {
+	case *ssa.Alloc, *ssa.MakeMap, *ssa.MakeSlice:
+		return true
+	}
+	return false
+}
